@@ -27,6 +27,22 @@ CHECKS = {
    technique="explicit-state BFS over event histories on the real UDP storage with statistics, per-client tallies and scrape export enabled; reference-model oracle after every cleaning pass",
    text="BFS to a fixpoint over announce / stop / re-announce-with-new-peer-id / expiry histories (3 keys x 3 peer ids; 2 torrents x 2 families; heap maps) with the statistics worker's own fold as tally; after every clean: torrent and peer totals, per-client tallies and the parsed export file equal the reference tracker.",
    note="Tally fold is a model of run_statistics_worker's loop; crash points of the export are a separate sub-check (see DESIGN); access list off."),
+ "C05": dict(level="exploration", engine="enum", ref="§3 C05",
+   technique="exhaustive enumeration of a boundary grid and of all 1-/2-bit alterations through the real ConnectionValidator, integer oracle",
+   text="Every cell of max_connection_age x issue time x check offset x issuing IP x checking IP (176k cells incl. 0, 60/61 s, 2^31 and u32::MAX boundaries, IPv4/IPv6 addresses sharing octets) is run through the real validator (clock set via hook H2) and compared with the rule evaluated in unbounded integers; at 80 accepted points all 64 single-bit and 2016 double-bit alterations, foreign-key ids, other-address ids and structured forgeries must be rejected.",
+   note="MAC strength itself (2^-32) is assumed; an accepted alteration counts only if reproduced under three independently keyed validators; clock cadence of the workers not explored."),
+ "C13": dict(level="exploration", engine="enum", ref="§3 C13",
+   technique="exhaustive enumeration of a constructed message space against an independent BEP 15 codec (differential, byte-exact)",
+   text="All message kinds with boundary field values (full product event x port x numwant x left, every single field swept, every truncation length, every single-bit flip of an announce, 0..=255 scrape hashes x 8 limits, 0..=80 reply peers of both families, 0..=255 scrape entries) are encoded by the library and by an independent explicit-offset BEP 15 encoder (bytes must be equal), decoded by both (values must be equal), and round-tripped.",
+   note="The reference codec in c13.rs is the specification."),
+ "C14": dict(level="exploration", engine="enum", ref="§3 C14",
+   technique="exhaustive enumeration of a constructed request / reply space against an independent URL-identifier decoder and a strict canonical bencode codec",
+   text="Library-written requests (all events x numwant x key shapes, numeric extremes, every byte value at every identifier position) must parse back equal; hand-built query strings (all 120 permutations of 5 parameters, rotations, unknown keys at every position, lower/upper hex and raw identifiers, identifier strings of every length 0..=40, out-of-range characters) must give the expected request or be rejected; every reply (0..=60 peers per family, 0..=40 scrape entries, failures) must equal an independent canonical bencode encoding byte for byte and parse back.",
+   note="Counts are limited to < 2^63 (serde_bencode integers); malformed percent escapes inside identifiers are not judged."),
+ "C15": dict(level="exploration", engine="enum", ref="§3 C15",
+   technique="exhaustive enumeration of a constructed JSON message space through the real codec, expected value for every case",
+   text="Every in/out message kind with optional fields present / absent / null, SDP strings covering every control and Latin-1 character, U+2028, non-BMP and 60 KiB, identifiers with every byte value at every position, each as text and as binary WebSocket message, must round-trip; serialised identifiers must be 20 characters <= U+00FF; hand-built identifier strings of every length 0..=40 over {'a','é','Ā','𝕊'} raw and escaped are accepted exactly when 20 characters <= U+00FF.",
+   note="serde_json (encode) and simd-json (decode) are used exactly as the tracker and client do."),
 }
 
 NOT_YET = {}
